@@ -295,6 +295,26 @@ func guardOp(op model.Op, db *model.DB, usesV2 bool) []string {
 			}
 		}
 	}
+	// precondition every real caller keeps (DynamoDB rejects it for reasons no
+	// listed property covers): no item holds an empty string or binary in an
+	// attribute that is a key of some index
+	switch op.Kind {
+	case "Put", "Update", "BatchWrite", "AddIndex":
+		next := db.Clone()
+		next.Apply(op)
+		for _, tn := range next.TableNames() {
+			nt := next.Tables[tn]
+			for _, ix := range nt.Schema.Indexes {
+				for _, a := range []string{ix.Hash, ix.Range} {
+					for _, it := range nt.Items {
+						if v, ok := it[a]; ok && a != "" && (v.T == "S" && v.S == "" || v.T == "B" && len(v.B) == 0) {
+							set["PRE-EMPTY-INDEX-KEY"] = true
+						}
+					}
+				}
+			}
+		}
+	}
 	ids := make([]string, 0, len(set))
 	for id := range set {
 		ids = append(ids, id)
